@@ -91,7 +91,9 @@ theorem doCompute_spec1 (f : List Row → List Row) (w : Int × Int) (rid kind :
   | ok I =>
     simp only [List.map, uniqueB_single, Bool.not_true, Bool.false_eq_true, if_false]
     rw [show (spec1 f w rid).wl = w.1 from rfl, show (spec1 f w rid).wr = w.2 from rfl,
-      show (spec1 f w rid).multi = false from rfl]
+      show (spec1 f w rid).multi = false from rfl, show (spec1 f w rid).declOK = true from rfl,
+      show (spec1 f w rid).signCheck = true from rfl]
+    simp only [Bool.not_true, Bool.false_or, Bool.true_and]
     by_cases hw : (decide (w.1 < 0) || decide (w.2 < 0)) = true
     · simp only [hw, ↓reduceIte]
     · simp only [hw, Bool.false_eq_true, ↓reduceIte]
